@@ -274,26 +274,58 @@ def check_duration(repo, rep):
     if uir:
         ok = U(uir[0].body[-1]).replace(" ", "") == "returnlargest<=unit_typeandsmallest>=unit_type"
         rep.ob("C14.R4", uir[0], "a unit is shown iff largest <= unit <= smallest (enum order week < ... < ms)", ok, "", key="C14.R4@unit_in_range")
-    au = repo.func("cell.py", "_auto_units")
-    s = U(au).replace(" ", "")
-    ok = all(x in s for x in ("cell_value>=SECONDS_IN_WEEK", "cell_value>=SECONDS_IN_DAY", "cell_value>=SECONDS_IN_HOUR", "cell_value>=60", "cell_value>=1")) \
-        and all(x in s for x in ("cell_value%60", "cell_value%SECONDS_IN_HOUR", "cell_value%SECONDS_IN_DAY", "cell_value%SECONDS_IN_WEEK")) and "unit_smallest=max(unit_smallest,unit_largest)" in s
-    rep.ob("C14.R4", au, "automatic units: largest by magnitude thresholds, smallest by divisibility", ok, "", key="C14.R4@auto_units")
+    from .. import numfmt
+    au, n_au, au_probs = numfmt.check_auto_units(repo)
+    ok = not au_probs
+    rep.ob("C14.R4", au_probs[0][0] if au_probs else au, f"automatic units: largest by magnitude thresholds, smallest by divisibility ({n_au} boundary scenarios)", ok,
+           "" if ok else au_probs[0][1] + (f" (and {len(au_probs) - 1} more)" if len(au_probs) > 1 else ""), key="C14.R4@auto_units")
 
 
 def check_scanner(repo, rep):
-    """R5: shape facts about the date format scanner (literals pass through, quotes toggle a string)."""
-    f = repo.func("cell.py", "_decode_date_format")
-    s = U(f).replace(" ", "")
-    ok = "elifin_string:result+=current_char" in s.replace("\n", "") and "elifnotcurrent_char.isalpha():" in s and "result+=current_char" in s
-    rep.ob("C14.R5", f, "scanner: quoted text and non-letters are copied unchanged", ok, "", key="C14.R5@literals")
-    ok = s.replace("\n", "").count("result+=_decode_date_format_field(field,value)") >= 3 and "ifin_field:result+=_decode_date_format_field(field,value)returnresult" in s.replace("\n", "")
-    rep.ob("C14.R5", f, "scanner: a run of letters is one field, flushed at literals, quotes and the end", ok, "", key="C14.R5@fields")
-    ok = "ifchars[index+1]==\"'\":result+=\"'\"index+=2" in s.replace("\n", "")
-    rep.ob("C14.R5", f, "scanner: a doubled quote is a literal quote", ok, "", key="C14.R5@doubled-quote")
+    """R5: transition table of the date format scanner (scanner.py): every (character, next character, flags) class
+    must take the step the format language prescribes."""
+    from .. import scanner
+    f, n, pr = scanner.table(repo)
+    for cat, title, key in (("literals", "quoted text and non-letters are copied unchanged", "C14.R5@literals"),
+                            ("fields", "a run of letters is one field, flushed at literals, quotes and the end", "C14.R5@fields"),
+                            ("doubled-quote", "a doubled quote is a literal quote; a lone quote toggles quoted text", "C14.R5@doubled-quote")):
+        ps = pr[cat]
+        rep.ob("C14.R5", ps[0][0] if ps else f, f"scanner: {title} ({n} classes of the transition table)", not ps,
+               "" if not ps else ps[0][1] + (f" (and {len(ps) - 1} more)" if len(ps) > 1 else ""), key=key)
 
 
 VARIANTS = [
+    M("auto-units-week-threshold-exclusive", "cell.py", "        if cell_value >= SECONDS_IN_WEEK:\n            unit_largest = DurationUnits.WEEK", "        if cell_value > SECONDS_IN_WEEK:\n            unit_largest = DurationUnits.WEEK", "C14.R4"),
+    M("auto-units-smallest-not-clamped", "cell.py", "        unit_smallest = max(unit_smallest, unit_largest)\n", "        pass\n", "C14.R4"),
+    M("auto-units-minute-by-hour-modulus", "cell.py", "        elif cell_value % 60:\n            unit_smallest = DurationUnits.SECOND\n        elif cell_value % SECONDS_IN_HOUR:", "        elif cell_value % 60:\n            unit_smallest = DurationUnits.SECOND\n        elif cell_value % SECONDS_IN_DAY:", "C14.R4"),
+    T("auto-units-threshold-table", "cell.py", """        if cell_value >= SECONDS_IN_WEEK:
+            unit_largest = DurationUnits.WEEK
+        elif cell_value >= SECONDS_IN_DAY:
+            unit_largest = DurationUnits.DAY
+        elif cell_value >= SECONDS_IN_HOUR:
+            unit_largest = DurationUnits.HOUR
+        elif cell_value >= 60:
+            unit_largest = DurationUnits.MINUTE
+        elif cell_value >= 1:
+            unit_largest = DurationUnits.SECOND
+        else:
+            unit_largest = DurationUnits.MILLISECOND
+""", """        for threshold, unit in ((SECONDS_IN_WEEK, DurationUnits.WEEK), (SECONDS_IN_DAY, DurationUnits.DAY), (SECONDS_IN_HOUR, DurationUnits.HOUR), (60, DurationUnits.MINUTE), (1, DurationUnits.SECOND)):
+            if cell_value >= threshold:
+                unit_largest = unit
+                break
+        else:
+            unit_largest = DurationUnits.MILLISECOND
+"""),
+    M("scanner-doubled-quote-advances-one", "cell.py", "            if chars[index + 1] == \"'\":\n                result += \"'\"\n                index += 2\n            elif in_string:\n                in_string = False\n                index += 1\n            else:\n                in_string = True\n                if in_field:\n                    result += _decode_date_format_field",
+      "            if chars[index + 1] == \"'\":\n                result += \"'\"\n                index += 1\n            elif in_string:\n                in_string = False\n                index += 1\n            else:\n                in_string = True\n                if in_field:\n                    result += _decode_date_format_field", "C14.R5"),
+    M("scanner-quote-keeps-field-open", "cell.py", "                in_string = True\n                if in_field:\n                    result += _decode_date_format_field(field, value)\n                    in_field = False\n                index += 1",
+      "                in_string = True\n                index += 1", "C14.R5"),
+    M("scanner-literal-before-field", "cell.py", "        elif not current_char.isalpha():\n            if in_field:\n                result += _decode_date_format_field(field, value)\n                in_field = False\n            result += current_char",
+      "        elif not current_char.isalpha():\n            result += current_char\n            if in_field:\n                result += _decode_date_format_field(field, value)\n                in_field = False", "C14.R5"),
+    M("scanner-open-field-dropped-at-end", "cell.py", "    if in_field:\n        result += _decode_date_format_field(field, value)\n\n    return result\n\n\ndef _decode_text_format", "    return result\n\n\ndef _decode_text_format", "C14.R5"),
+    T("scanner-index-advanced-once", "cell.py", "        elif in_field:\n            field += current_char\n            index += 1\n        else:\n            in_field = True\n            field = current_char\n            index += 1",
+      "        else:\n            field = field + current_char if in_field else current_char\n            in_field = True\n            index += 1"),
     M("F-day-floordiv-7", "constants.py", "n_days = int((value - value.replace(day=1)).days / 7) + 1", "n_days = value.day // 7 + 1", "C14.R3"),
     T("F-day-minus-one", "constants.py", "n_days = int((value - value.replace(day=1)).days / 7) + 1", "n_days = (value.day - 1) // 7 + 1"),
     M("date-format-bypass", "cell.py", "            format_uuid = NumbersUUID(date_format.custom_uid).hex\n            format_map = self._model.custom_format_map()\n",
